@@ -722,7 +722,17 @@ func (st *tunnelClientStream) SendMsg(m interface{}) error {
 		return status.Errorf(codes.ResourceExhausted, "serialized message is too large: %d bytes > maximum %d bytes", len(b), math.MaxUint32)
 	}
 
-	return st.sender.send(b)
+	if err := st.sender.send(b); err != nil {
+		// A send that was waiting for flow-control window is woken through the
+		// stream's context when the stream finishes. Report how the stream
+		// finished (e.g. the status the server refused it with), not the bare
+		// context error.
+		if doneErr := st.loadDone(); doneErr != nil && doneErr != io.EOF {
+			return doneErr
+		}
+		return err
+	}
+	return nil
 }
 
 func (st *tunnelClientStream) RecvMsg(m interface{}) error {
